@@ -244,7 +244,11 @@ class Transformer(ast.NodeTransformer):
         self.has_yield = saved_y
         new = ast.FunctionDef(name=node.name, args=node.args, body=body, decorator_list=[],
                               returns=None, type_comment=None, type_params=[])
-        return ast.copy_location(new, node)
+        ast.copy_location(new, node)
+        if isinstance(node, ast.AsyncFunctionDef):
+            # calling an `async def` only creates a coroutine; its body runs when it is awaited
+            new.decorator_list = [_vc("coroutine_function")]
+        return new
 
     visit_AsyncFunctionDef = visit_FunctionDef
 
